@@ -488,7 +488,7 @@ def check_crypto_arm_verdict(rep, prog, rid):
                 return False
             return None
         sc = Scenario(args={'subject': Sym('subject', types={'PGPUID'}, nonnull=True), 'signature': Const(None)},
-                      oracle=oracle, inline=lambda f: False, axioms={'(len(sspairs) == 0)': False})
+                      oracle=oracle, inline=lambda f: False, axioms={'(len(sspairs) == 0)': False, 'sspairs': True})
         outs = Interp(prog, sc).run(fi)
         rep.analysed['paths'] += len(outs)
         recs = []
